@@ -301,6 +301,7 @@ pub fn world_cfg(topo: Topology, seed: u64) -> WorldCfg {
         seed,
         tracers: 1,
         alt_targets: Vec::new(),
+        blackouts: Vec::new(),
     }
 }
 
